@@ -247,7 +247,7 @@ def run(ctx):
     if sw_blocks and gm:
         OPT_ = 'core::option::Option'
         for k_, d_ in scrutinees(rj, OPT_).items():
-            if d_['root'] == rj.term[gm[0]]['d'][0]:
+            if d_['root'] == rj.term[gm[0]]['d'][0] and k_ == f"_{d_['root']}":
                 ent_, reg_ = rj.arm_entries(OPT_, {'Some'}, k_)
                 hs_ = loop_headers_containing(rj, gm[0])
                 okall, _w = must_pass(rj, ent_, sw_blocks, exits=hs_[:1] + list(rj.returns()))
